@@ -22,6 +22,7 @@ import (
 type Options struct {
 	Repo       string
 	HarnessDir string
+	Root       string
 	Pkgs       []string // package dirs relative to repo: ".", "decorator", ...
 	Run        *regexp.Regexp
 	Property   string
@@ -252,7 +253,8 @@ func main() {
 	var pkgs, run string
 	var timeoutS int
 	flag.StringVar(&o.Repo, "repo", "/repo", "repository root")
-	flag.StringVar(&o.HarnessDir, "harness", "/verif/harness", "harness dir")
+	flag.StringVar(&o.HarnessDir, "harness", "", "harness dir (default <root>/harness)")
+	flag.StringVar(&o.Root, "root", "/verif", "verification root directory")
 	flag.StringVar(&pkgs, "pkgs", "decorator", "comma separated package dirs")
 	flag.StringVar(&run, "run", "^Verif", "regexp of harness functions")
 	flag.StringVar(&o.Property, "property", "", "property id")
@@ -273,13 +275,19 @@ func main() {
 	flag.BoolVar(&o.NoNative, "no-native", false, "skip native replays (debugging only)")
 	flag.BoolVar(&o.Verbose, "v", false, "verbose")
 	flag.StringVar(&o.ReplayOnly, "replay", "", "replay one recorded counterexample natively and exit")
-	flag.StringVar(&o.KnownFile, "known", "/verif/known_findings.json", "known findings file")
+	flag.StringVar(&o.KnownFile, "known", "", "known findings file (default <root>/known_findings.json)")
 	flag.Parse()
 	verboseCrash = o.Verbose
 	o.Pkgs = strings.Split(pkgs, ",")
 	o.Run = regexp.MustCompile(run)
+	if o.HarnessDir == "" {
+		o.HarnessDir = filepath.Join(o.Root, "harness")
+	}
+	if o.KnownFile == "" {
+		o.KnownFile = filepath.Join(o.Root, "known_findings.json")
+	}
 	if o.WorkDir == "" {
-		o.WorkDir = filepath.Join("/verif/.work", fmt.Sprintf("%s-%d", o.Property, os.Getpid()))
+		o.WorkDir = filepath.Join(o.Root, ".work", fmt.Sprintf("%s-%d", o.Property, os.Getpid()))
 	}
 	os.MkdirAll(o.WorkDir, 0o755)
 	if os.Getenv("GOSYM_KEEP") == "" {
